@@ -31,6 +31,10 @@ pub fn dialect() -> Dialect {
         "unreserved_keywords",
         super::trino_keywords::TRINO_UNRESERVED_KEYWORDS,
     );
+    trino_dialect.update_keywords_set_from_multiline_string(
+        "unreserved_keywords",
+        super::trino_keywords::TRINO_INHERITED_ANSI_KEYWORDS,
+    );
 
     trino_dialect.sets_mut("reserved_keywords").clear();
     trino_dialect.update_keywords_set_from_multiline_string(
